@@ -200,15 +200,17 @@ def analysed_functions(world):
     return fns, callers
 
 
-def run(ctx):
+def run(ctx, ids=("R05-PAIR", "R05-RECOVER", "R05-PRED", "R05-CURSOR"), own=True):
+    """`ids`: C01 registers the same instances under its own rule ids (full backtracking is part of recognising what pest recognises)."""
     fs = facts.load("core", "fx_macros")
     world = nodes.World(fs, ["pest_typed", "fx_macros"])
-    ctx.analysed = {"crates": ["pest_typed", "fx_macros"]}
+    if own:
+        ctx.analysed = {"crates": ["pest_typed", "fx_macros"]}
     fns, callers = analysed_functions(world)
-    rp = ctx.rule("R05-PAIR", "snapshot / restore|clear_snapshot balanced like parentheses on every path of every function that uses them")
-    rr = ctx.rule("R05-RECOVER", "every path that recovers from a failed child passes `restore` (with a snapshot taken before) before touching stack, cursor or another child")
-    rd = ctx.rule("R05-PRED", "look-ahead nodes (class POS/NEG) snapshot before their operand and never clear_snapshot: the stack is restored on every path")
-    rc = ctx.rule("R05-CURSOR", "after a failed attempt no later event and no result uses a cursor produced inside the attempt")
+    rp = ctx.rule(ids[0], "snapshot / restore|clear_snapshot balanced like parentheses on every path of every function that uses them")
+    rr = ctx.rule(ids[1], "every path that recovers from a failed child passes `restore` (with a snapshot taken before) before touching stack, cursor or another child")
+    rd = ctx.rule(ids[2], "look-ahead nodes (class POS/NEG) snapshot before their operand and never clear_snapshot: the stack is restored on every path")
+    rc = ctx.rule(ids[3], "after a failed attempt no later event and no result uses a cursor produced inside the attempt")
     unicode_done = False
     for fid, (key, loc) in sorted(fns.items()):
         if "::unicode::" in fid:
@@ -259,6 +261,8 @@ def run(ctx):
     rr.require(150, "recovery sites")                 # 77x2 choice alternatives + option + repetitions + negative
     rd.require(4, "look-ahead functions")
     rc.require(40, "functions with recovery sites")
+    if not own:
+        return
     ctx.assume("pest::Stack::{snapshot, restore, clear_snapshot} do what their documentation says; known exception in pest 2.7.14: "
                "clear_snapshot of an inner snapshot forgets pops made under it, so a later outer restore does not bring them back "
                "(r = { PUSH(\"a\") ~ ((POP? ~ \"x\") | (PEEK ~ \"y\")) } on \"aay\") — dependency defect, no construct in /repo is wrong")
